@@ -24,7 +24,7 @@ EXPLANATION = ("The console's posting, finishing and sending helpers are loop-fr
                "are folded over the small state (token present, cursor, pending length) and checked for guards, field writers and "
                "operand provenance.")
 CONFIGS = ['def', 'alloc', 'def-rel']    # these drivers need the `alloc` feature
-FLOORS = {'trait_writers': 2, 'poster_fns': 1, 'finisher_fns': 1, 'send_fns': 2}
+FLOORS = {'trait_writers': {'*': 2, 'alloc': 1}, 'poster_fns': 1, 'finisher_fns': 1, 'send_fns': 2}
 DRV = 'device::console::VirtIOConsole'
 
 
